@@ -19,11 +19,11 @@ NEED = ['Modify', 'Link', 'Unlink', 'AddExplicit', 'Load', 'Savepoint', 'Rollbac
 
 
 def configs(q):
-    two = cd.consts(Obj=('a', 'b'), Edges='EdgesFlat', MaxSp=2, MaxCommit=1, MaxAct=4 if q else 6, MaxTail=1,
+    two = cd.consts(Obj=('a', 'b'), Edges='EdgesFlat', MaxSp=2, MaxCommit=1, MaxAct=4 if q else 5, MaxTail=1,
                     Ops=('add', 'sp') if q else ('add', 'sp', 'load'))
-    rep = cd.consts(Obj=('a',), Edges='EdgesFlat', MaxSp=2 if q else 3, MaxCommit=1 if q else 2, MaxAct=6 if q else 7, MaxTail=1,
-                    Ops=('add', 'sp', 'load') if q else ('add', 'sp', 'load', 'free'))
-    chain = cd.consts(Obj=('a', 'b'), Edges='EdgesChain', MaxSp=2, MaxCommit=1, MaxAct=4 if q else 6, MaxTail=1, Ops=('sp',))
+    rep = cd.consts(Obj=('a',), Edges='EdgesFlat', MaxSp=2 if q else 3, MaxCommit=1, MaxAct=6 if q else 7, MaxTail=1,
+                    Ops=('add', 'sp', 'load'))
+    chain = cd.consts(Obj=('a', 'b'), Edges='EdgesChain', MaxSp=2, MaxCommit=1, MaxAct=4 if q else 5, MaxTail=1, Ops=('sp',))
     other = cd.consts(Obj=('a',) if q else ('a', 'b'), Edges='EdgesFlat', Pre=('a',), MaxSp=2, MaxCommit=1, MaxOther=1,
                       MaxAct=4, MaxTail=1, Ops=('sp', 'other', 'load'))
     blob = cd.consts(Obj=('k',) if q else ('a', 'k'), Blobs=('k',), Edges='EdgesBlob', MaxSp=2, MaxCommit=1, MaxAct=6 if q else 5,
@@ -42,6 +42,14 @@ def run(ctx):
     kinds = ('mapping', 'file') if q else ('mapping', 'file', 'demo')
     dev = K.deviations(ctx, cov, kinds, blobs=True)
     K.check_all(ctx, cov, items, dev, kinds, budget=BUDGET if q else None)
+    if not q:
+        # deeper programs: seeded random behaviours of configurations too large to dump
+        big = cd.consts(Obj=('a', 'b', 'c'), Edges='EdgesChain', MaxSp=3, MaxCommit=3, MaxOther=1, MaxAct=9, MaxTail=3,
+                        Ops=('add', 'load', 'sp', 'other', 'free'))
+        K.simulate(ctx, cov, 'three-objects', big, dev, kinds, num=3000, depth=90)
+        bigb = cd.consts(Obj=('a', 'k'), Blobs=('k',), Edges='EdgesBlob', MaxSp=3, MaxCommit=3, MaxAct=9, MaxTail=3,
+                         Ops=('add', 'load', 'sp', 'free'))
+        K.simulate(ctx, cov, 'blobs-deep', bigb, dev, kinds, num=2000, depth=90)
     return K.finish(ctx, cov, NEED, RULE, dev)
 
 
